@@ -24,10 +24,24 @@ Definition icompose (cur nxt : irange) : irange :=
             | Some a, Some b => Some (Z.min a b) | Some a, None => Some a | None, b => b end in
   IRange s e'.
 
-Lemma add64_ret a b t : add64 a b = Ret t -> t = a + b.
-Proof. intro H. apply chk64_ret in H. tauto. Qed.
-Lemma sub64_ret a b t : sub64 a b = Ret t -> t = a - b.
-Proof. intro H. apply chk64_ret in H. tauto. Qed.
+Lemma shift_ret a b t : shift a b = Ret t -> t = a + b - 1.
+Proof.
+  unfold shift, checked_add64, checked_sub64. destruct (opt64 (a + b)) as [x|] eqn:E1; [|discriminate].
+  destruct (opt64 (x - 1)) as [y|] eqn:E2; [|discriminate]. intro H. injection H as <-.
+  apply opt64_some in E1 as [-> _]. apply opt64_some in E2 as [-> _]. reflexivity.
+Qed.
+
+Lemma shift_not_panic a b : shift a b <> Panic.
+Proof. unfold shift. destruct (checked_add64 a b); [destruct (checked_sub64 z 1)|]; discriminate. Qed.
+
+Lemma shift_in a b : i64_min <= a + b <= i64_max -> i64_min <= a + b - 1 <= i64_max -> shift a b = Ret (a + b - 1).
+Proof. intros H1 H2. unfold shift, checked_add64, checked_sub64. rewrite (opt64_in _ H1), (opt64_in _ H2). reflexivity. Qed.
+
+Lemma csub_ret a b t : ok_or (checked_sub64 a b) = Ret t -> t = a - b.
+Proof.
+  unfold checked_sub64. destruct (opt64 (a - b)) as [x|] eqn:E; cbn; [|discriminate].
+  intro H. injection H as <-. apply opt64_some in E. tauto.
+Qed.
 
 Lemma try_lit r : try_range_into_int (lit r) = Ret r.
 Proof. destruct r as [[s|] [e|]]; reflexivity. Qed.
@@ -42,11 +56,11 @@ Proof.
   assert (s = match rs, cs with Some a, Some b => Some (a + b - 1) | Some a, None => Some a | None, b => b end) as ->.
   { destruct rs as [a|], cs as [b|]; cbn [or_map] in Hs; try (injection Hs as <-; reflexivity).
     apply bind_ret in Hs as (z & Hz & Hs). injection Hs as <-.
-    apply bind_ret in Hz as (t & Ht & Hz). apply add64_ret in Ht. apply sub64_ret in Hz. subst. reflexivity. }
+    apply shift_ret in Hz. subst. reflexivity. }
   assert (e = match re with Some b => Some (match cs with Some c => c | None => 1 end + b - 1) | None => None end) as ->.
   { destruct re as [b|]; [|injection He as <-; reflexivity].
-    apply bind_ret in He as (t & Ht & He). apply bind_ret in He as (u & Hu & He). injection He as <-.
-    apply add64_ret in Ht. apply sub64_ret in Hu. subst. reflexivity. }
+    apply bind_ret in He as (u & Hu & He). injection He as <-.
+    apply shift_ret in Hu. subst. reflexivity. }
   f_equal.
   destruct ce as [a|]; destruct (match re with Some b => Some (match cs with Some c => c | None => 1 end + b - 1) | None => None end) as [b|];
     cbn [or_map bind] in He'; injection He' as <-; reflexivity.
@@ -135,9 +149,9 @@ Proof.
   unfold limit_offset. intro H. apply bind_ret in H as (off & Ho & H). apply bind_ret in H as (lim & Hl & H).
   injection H as <-. unfold apply_limit_offset, take_range. cbn [fst snd].
   assert (off = offz (r_start t)) as ->.
-  { destruct (r_start t) as [s|]; cbn [offz]; [apply sub64_ret in Ho; exact Ho | injection Ho as <-; reflexivity]. }
+  { destruct (r_start t) as [s|]; cbn [offz]; [apply csub_ret in Ho; exact Ho | injection Ho as <-; reflexivity]. }
   destruct (r_end t) as [e|].
-  - apply bind_ret in Hl as (x & Hx & Hl). injection Hl as <-. apply sub64_ret in Hx. subst. reflexivity.
+  - apply bind_ret in Hl as (x & Hx & Hl). injection Hl as <-. apply csub_ret in Hx. subst. reflexivity.
   - injection Hl as <-. reflexivity.
 Qed.
 
@@ -159,65 +173,92 @@ Proof.
 Qed.
 
 (* ------------------------------------------------------------------ totality *)
-Lemma chk64_bounded z M : 0 <= M <= i64_max -> - M <= z <= M -> chk64 z = Ret z.
-Proof. intros HM Hz. apply chk64_in. unfold i64_min, i64_max in *. lia. Qed.
+(* the arithmetic is checked (commit 18f8c11): no input makes it panic *)
+Lemma unpack_opt_not_panic b : unpack_opt b <> Panic.
+Proof. destruct b as [[z|]|]; discriminate. Qed.
 
-(* magnitude of a range *)
-Definition mag (M : Z) (r : irange) : Prop :=
-  (match r_start r with Some s => - M <= s <= M | None => True end) /\
-  (match r_end r with Some e => - M <= e <= M | None => True end).
-
-Lemma unpack_opt_cases b : (exists z, b = Some (BInt z) /\ unpack_opt b = Ret (Some z)) \/ (b = None /\ unpack_opt b = Ret None) \/ unpack_opt b = Fail.
-Proof. destruct b as [[z|]|]; cbn; eauto. Qed.
-
-Lemma step_total B M cur r :
-  0 <= B -> 0 <= M -> M + B + 1 <= i64_max -> mag M cur -> bounded B r ->
-  step cur r = Fail \/ exists c, step cur r = Ret c /\ mag (M + B + 1) c.
+Lemma or_map_not_panic a b f : (forall x y, f x y <> Panic) -> or_map a b f <> Panic.
 Proof.
-  intros HB HM Hmax [Hcs Hce] [Hrs Hre]. unfold step, try_range_into_int.
-  destruct (unpack_opt_cases (e_start r)) as [(a & Ea & ->)|[[Ea ->]| ->]]; [| |left; reflexivity];
-  (destruct (unpack_opt_cases (e_end r)) as [(b & Eb & ->)|[[Eb ->]| ->]]; [| |left; reflexivity]);
-  right; cbn [bind r_start r_end]; rewrite ?Ea, ?Eb in *; cbn [bounded_b] in *;
-  destruct cur as [[cs|] [ce|]]; cbn [r_start r_end or_map bind] in *; unfold add64, sub64, min64;
-  repeat (rewrite (chk64_bounded _ (M + B + 1)) by (unfold i64_max in *; lia); cbn [bind or_map]);
-  eexists; (split; [reflexivity|]); split; cbn [r_start r_end]; try exact I; lia.
+  intro H. destruct a as [x|], b as [y|]; cbn [or_map]; try discriminate.
+  apply bind_not_panic; [apply H | discriminate].
 Qed.
 
-Lemma fold_total B : 0 <= B -> forall rs M cur,
-  0 <= M -> M + Z.of_nat (length rs) * (B + 1) <= i64_max -> mag M cur -> Forall (bounded B) rs ->
-  fold_ranges cur rs = Fail \/ exists c, fold_ranges cur rs = Ret c /\ mag (M + Z.of_nat (length rs) * (B + 1)) c.
+Lemma step_not_panic cur r : step cur r <> Panic.
 Proof.
-  intros HB. induction rs as [|r rs IH]; intros M cur HM Hmax Hmag Hb.
-  - right. exists cur. split; [reflexivity|]. cbn [length]. replace (M + Z.of_nat 0 * (B + 1)) with M by lia. exact Hmag.
-  - inversion Hb as [|? ? Hr Hrs]; subst. cbn [fold_ranges]. cbn [length] in Hmax.
-    destruct (step_total B M cur r HB HM ltac:(lia) Hmag Hr) as [->|(c & -> & Hc)]; [left; reflexivity|].
-    cbn [bind]. destruct (IH (M + B + 1) c ltac:(lia) ltac:(lia) Hc Hrs) as [->|(c' & -> & Hc')]; [left; reflexivity|].
-    right. exists c'. split; [reflexivity|]. cbn [length].
-    replace (M + Z.of_nat (S (length rs)) * (B + 1)) with (M + B + 1 + Z.of_nat (length rs) * (B + 1)) by lia. exact Hc'.
+  unfold step, try_range_into_int.
+  apply bind_not_panic.
+  { apply bind_not_panic; [apply unpack_opt_not_panic|]. intro s.
+    apply bind_not_panic; [apply unpack_opt_not_panic | discriminate]. }
+  intro r'. apply bind_not_panic; [apply or_map_not_panic; apply shift_not_panic|]. intro s.
+  apply bind_not_panic.
+  { destruct (r_end r'); [|discriminate]. apply bind_not_panic; [apply shift_not_panic | discriminate]. }
+  intro e. apply bind_not_panic; [apply or_map_not_panic; discriminate | discriminate].
 Qed.
 
-Theorem range_of_ranges_total_lemma rs B :
-  0 <= B -> Forall (bounded B) rs -> Z.of_nat (length rs) * (B + 1) <= i64_max ->
-  range_of_ranges rs <> Panic.
+Lemma fold_not_panic : forall rs cur, fold_ranges cur rs <> Panic.
 Proof.
-  intros HB Hb Hmax. unfold range_of_ranges.
-  destruct (fold_total B HB rs 0 (IRange None None) ltac:(lia) ltac:(lia) ltac:(split; exact I) Hb) as [->|(c & -> & _)];
-    cbn [bind]; [discriminate|].
+  induction rs as [|r rs IH]; intro cur; cbn [fold_ranges]; [discriminate|].
+  apply bind_not_panic; [apply step_not_panic | intro c; apply IH].
+Qed.
+
+Theorem range_of_ranges_total_lemma rs : range_of_ranges rs <> Panic.
+Proof.
+  unfold range_of_ranges. apply bind_not_panic; [apply fold_not_panic|]. intro c.
   destruct (r_start c), (r_end c); try discriminate. destruct (_ <? _); discriminate.
 Qed.
 
-Theorem take_sql_total_lemma rs B :
-  0 <= B -> Forall (bounded B) rs -> 2 * (Z.of_nat (length rs) * (B + 1)) + 1 <= i64_max ->
-  take_sql rs <> Panic.
+Lemma limit_offset_not_panic t : limit_offset t <> Panic.
+Proof.
+  unfold limit_offset. apply bind_not_panic.
+  { destruct (r_start t); [apply ok_or_not_panic | discriminate]. }
+  intro off. apply bind_not_panic; [|discriminate].
+  destruct (r_end t); [|discriminate]. apply bind_not_panic; [apply ok_or_not_panic | discriminate].
+Qed.
+
+Theorem take_sql_total_lemma rs : take_sql rs <> Panic.
+Proof. unfold take_sql. apply bind_not_panic; [apply range_of_ranges_total_lemma | intro t; apply limit_offset_not_panic]. Qed.
+
+(* ... and it does not reject what fits: n ranges of literals bounded by B in absolute value are accepted
+   whenever 2 n (B+1) + 1 fits i64 (the "take range is too large" error is not spurious) *)
+Definition mag (M : Z) (r : irange) : Prop :=
+  (match r_start r with Some s => - M <= s <= M | None => True end) /\
+  (match r_end r with Some e => - M <= e <= M | None => True end).
+Definition bounded_i (B : Z) (r : irange) : Prop := mag B r.
+
+Lemma step_accepts B M cur r :
+  0 <= B -> 0 <= M -> M + B + 1 <= i64_max -> mag M cur -> bounded_i B r ->
+  exists c, step cur (lit r) = Ret c /\ mag (M + B + 1) c.
+Proof.
+  intros HB HM Hmax [Hcs Hce] [Hrs Hre]. unfold step. rewrite try_lit. cbn [bind].
+  destruct cur as [[cs|] [ce|]], r as [[rs|] [re|]]; cbn [r_start r_end or_map bind] in *; unfold min64;
+  repeat (rewrite shift_in by (unfold i64_min, i64_max in *; lia); cbn [bind or_map]);
+  eexists; (split; [reflexivity|]); split; cbn [r_start r_end]; try exact I; lia.
+Qed.
+
+Lemma fold_accepts B : 0 <= B -> forall rs M cur,
+  0 <= M -> M + Z.of_nat (length rs) * (B + 1) <= i64_max -> mag M cur -> Forall (bounded_i B) rs ->
+  exists c, fold_ranges cur (map lit rs) = Ret c /\ mag (M + Z.of_nat (length rs) * (B + 1)) c.
+Proof.
+  intros HB. induction rs as [|r rs IH]; intros M cur HM Hmax Hmag Hb.
+  - exists cur. split; [reflexivity|]. cbn [length]. replace (M + Z.of_nat 0 * (B + 1)) with M by lia. exact Hmag.
+  - inversion Hb as [|? ? Hr Hrs]; subst. cbn [map fold_ranges]. cbn [length] in Hmax.
+    destruct (step_accepts B M cur r HB HM ltac:(lia) Hmag Hr) as (c & -> & Hc).
+    cbn [bind]. destruct (IH (M + B + 1) c ltac:(lia) ltac:(lia) Hc Hrs) as (c' & -> & Hc').
+    exists c'. split; [reflexivity|]. cbn [length].
+    replace (M + Z.of_nat (S (length rs)) * (B + 1)) with (M + B + 1 + Z.of_nat (length rs) * (B + 1)) by lia. exact Hc'.
+Qed.
+
+Theorem take_sql_accepts_lemma rs B :
+  0 <= B -> Forall (bounded_i B) rs -> 2 * (Z.of_nat (length rs) * (B + 1)) + 1 <= i64_max ->
+  exists ol, take_sql (map lit rs) = Ret ol.
 Proof.
   intros HB Hb Hmax. unfold take_sql, range_of_ranges.
-  destruct (fold_total B HB rs 0 (IRange None None) ltac:(lia) ltac:(lia) ltac:(split; exact I) Hb) as [->|(c & -> & Hc)];
-    cbn [bind]; [discriminate|].
-  set (M := 0 + Z.of_nat (length rs) * (B + 1)) in *.
+  destruct (fold_accepts B HB rs 0 (IRange None None) ltac:(lia) ltac:(lia) ltac:(split; exact I) Hb) as (c & -> & Hc).
+  cbn [bind]. set (M := 0 + Z.of_nat (length rs) * (B + 1)) in *.
   assert (0 <= M) by (unfold M; lia).
-  assert (forall t, mag M t -> limit_offset t <> Panic) as L.
-  { intros [[s|] [e|]] [Hs He]; unfold limit_offset, sub64; cbn [r_start r_end bind] in *;
-      repeat (rewrite (chk64_bounded _ (2 * M + 1)) by (unfold i64_max in *; lia); cbn [bind]); discriminate. }
+  assert (forall t, mag M t -> exists ol, limit_offset t = Ret ol) as L.
+  { intros [[s|] [e|]] [Hs He]; unfold limit_offset, checked_sub64; cbn [r_start r_end bind] in *;
+      repeat (rewrite opt64_in by (unfold i64_min, i64_max in *; lia); cbn [bind ok_or]); eexists; reflexivity. }
   destruct c as [[s|] [e|]]; cbn [r_start r_end]; try (apply L; exact Hc).
   destruct (e <? s); [|apply L; exact Hc].
   apply L. split; cbn [r_start r_end]; [exact I | lia].
